@@ -410,7 +410,7 @@ def battery(d, scn):
             res["P7:fresh-decorated"] = "!" + type(e).__name__
         # import machinery
         res["P8:cache_from_source"] = _be.cache_from_source is _ORIG_CFS
-        res["P8:finders"] = sum(1 for f in sys.meta_path if type(f).__name__ == "_JaxtypingFinder")
+        res["P8:finders"] = sum(1 for f in sys.meta_path if (getattr(type(f), "__module__", "") or "").startswith("jaxtyping"))
         sys.modules.pop("c12plain", None)
         try:
             m = importlib.import_module("c12plain")
@@ -426,7 +426,7 @@ def battery(d, scn):
 def _cleanup_process_state():
     """Undo leaked process-wide state so that one violation does not poison later variants."""
     _be.cache_from_source = _ORIG_CFS
-    sys.meta_path[:] = [f for f in sys.meta_path if type(f).__name__ != "_JaxtypingFinder"]
+    sys.meta_path[:] = [f for f in sys.meta_path if not (getattr(type(f), "__module__", "") or "").startswith("jaxtyping")]
     st = jaxtyping._storage
     try:
         st._shape_storage.memo_stack = []
